@@ -57,7 +57,8 @@
 From Coq Require Import List NArith ZArith Bool.
 From ApiFu Require Import Base.Sexp Exe.ExecData Exe.ExecModel Exe.ExecSpec Exe.ExecHyps
      Exe.ExecBaseProofs Exe.ExecSpecProofs Exe.ExecCacheProofs Exe.ExecProofs
-     Exe.ExecOrderProofs Exe.ExecShapeProofs Exe.ExecFuelProofs Exe.ExecVisibleProofs Exe.ExecRequestProofs.
+     Exe.ExecOrderProofs Exe.ExecShapeProofs Exe.ExecFuelProofs Exe.ExecVisibleProofs Exe.ExecRequestProofs
+     Exe.ExecKeyOrder Exe.ExecKeyOrderProofs.
 Import ListNotations.
 
 (** The executor finishes: no panic, fragment expansion never runs out of fuel. *)
@@ -188,6 +189,27 @@ Theorem C01_selection_set_order : forall S D E fuel n children ot sels path j,
     j = JObj kvs /\ map fst kvs = first_occurrences (map fst flat) [].
 Proof. exact (fun S D E fuel n children ot sels path j => selection_set_order S D E fuel n children ot sels path j). Qed.
 
+(** stage B: the same as ONE recursive predicate over the whole data (Exe/ExecKeyOrder.v):
+    [ordered_obj S D E fuel ot sels kvs] — the entries [kvs] of an object are, in this order, one
+    per group of CollectFields(ot, sels) (field nodes after fragment expansion and
+    @skip/@include, grouped by response key in order of first appearance), each under its
+    group's key, and each value is [ordered] for the group's field type and field nodes: null, a
+    list of ordered items, a leaf, or an object that is [ordered_obj] for a possible object type
+    of the field's type and the MERGED sub-selections of the group's field nodes. *)
+Theorem C01_exec_data_ordered : forall S D E fuel n W j errs,
+  type_names_okb S = true -> doc_positions_okb D = true -> doc_ok S D E fuel n = true ->
+  run fixed S D E fuel W = Done (Some j) errs ->
+  exists rt kvs, s_root_type S (op_kind D) = Some rt /\ j = JObj kvs /\
+                 ordered_obj S D E fuel rt (op_sels D) kvs.
+Proof. exact exec_data_ordered. Qed.
+
+(** ... which contains the statement about the keys, for every object at every depth *)
+Theorem C01_ordered_obj_keys : forall S D E fuel ot sels kvs,
+  ordered_obj S D E fuel ot sels kvs ->
+  exists visited flat, s_collect_flat S D E fuel ot sels [] = Some (visited, flat) /\
+                       map fst kvs = first_occurrences (map fst flat) [].
+Proof. exact ordered_obj_keys. Qed.
+
 (** stage 2: the shape of every reported error.  It belongs to a field instance of the execution
     ([field_instance]: a field at response path p selected by the field nodes [fields], reached
     from the root through collected fields, list items and resolved object types); its path is p,
@@ -258,6 +280,8 @@ Print Assumptions C01_get_operation_refines_spec.
 Print Assumptions C01_run_request_selected.
 Print Assumptions C01_run_request_refused.
 Print Assumptions C01_request_total.
+Print Assumptions C01_exec_data_ordered.
+Print Assumptions C01_ordered_obj_keys.
 Print Assumptions C01_exec_data_eq.
 Print Assumptions C01_exec_errors_sound.
 Print Assumptions C01_exec_errors_subseq.
